@@ -30,7 +30,8 @@ const (
 )
 
 func runC09(r *Run) {
-	r.Assume("integers are ideal: numeric conversions (uint/uint64/int) preserve values and +,- do not wrap (true for tag sizes ≤ 7 on 64-bit platforms)")
+	r.Assume("+ and − on offsets and lengths do not wrap (operands are bounded by buffer lengths); integer conversions are NOT assumed value-preserving: each is an obligation of R9")
+	r.Assume("fieldInfo.count ≤ 8: sizes above 8 bytes are outside the documented tag grammar (R9 checks that count comes only from byteCount ≤ 8 or a size: tag)")
 	r.Assume("a *fieldInfo is not modified while a field is being parsed or marshalled (checked: no store through the info parameter)")
 	r.Assume("package reflect, encoding/binary and bytes.Buffer behave per their documentation; (reflect.Value).Len/Uint/Type/Kind are pure")
 	post := c09post()
@@ -39,10 +40,6 @@ func runC09(r *Run) {
 	mf := newC09fn(r, "tls.marshalField", 1, post)
 	rv := newC09fn(r, "tls.readVarUint", -1, post)
 	um := newC09fn(r, "tls.UnmarshalWithParams", -1, post)
-	if pf != nil {
-		pf.e.declareNonneg(pf.fn.Params[2]) // precondition 0 ≤ initOffset ≤ len(data), checked at every call site (R5)
-	}
-
 	r.Rule("C09.R1")
 	c09R1(r, pf, um)
 	r.Rule("C09.R2")
@@ -60,6 +57,9 @@ func runC09(r *Run) {
 
 	r.Rule("C09.R8")
 	c09FreshVector(r)
+
+	r.Rule("C09.R9")
+	c09R9(r, pf, mf, rv, um)
 }
 
 // ---- R1: one offset-relative base ------------------------------------------------------
